@@ -6,7 +6,7 @@ cd "$(dirname "$0")/.."
 rc=0
 for d in seeded/*/; do
   n=$(basename "$d")
-  out=$(timeout 3600 tools/seeded.py "$d" "$n" --keep 2>/dev/null | /venv/bin/python -c "
+  out=$(timeout 3600 tools/seeded.py "$d" "$n" ${KEEP---keep} 2>/dev/null | /venv/bin/python -c "
 import json,sys
 try:
     r=json.load(sys.stdin)
